@@ -436,7 +436,12 @@ where
                     Traversal::Absent(_),
                 ))) => {}
 
-                Err(minimq::PubError::Error(minimq::Error::Minimq(
+                // The value does not fit the payload buffer or the transmit buffer
+                Err(minimq::PubError::Serialization(miniconf::Error::Inner(
+                    _,
+                    serde_json_core::ser::Error::BufferFull,
+                )))
+                | Err(minimq::PubError::Error(minimq::Error::Minimq(
                     minimq::MinimqError::Protocol(minimq::ProtocolError::Serialization(
                         minimq::SerError::InsufficientMemory,
                     )),
